@@ -56,6 +56,18 @@ HIST = {
  "C16-f": "missed at first (no full long block: needs > 10^5 segment keys in one Elias-Fano bucket) -> dense burst of ~10^6 keys between two far outliers among the '#big' shared indexes",
  "C02-f": "same edit as C09-d / C14-e",
  "C18-f": "same family as C01-d / C02-d / C03-c (under-delivered OpenMP team), reached through the C wrapper",
+ "C01-g": "NOT reported by any check (see DESIGN section 7): needs ~4*10^7 keys and 1 of 8 (stride, epsilon) pairs with Floating=double; the '#giant' cases added after it cover one pair per run and report the sibling change C09-g",
+ "C09-g": "missed at first (no segment longer than ~2*10^7 positions) -> '#giant' cases: 3.6-4.4*10^7 equally spaced keys, one thread, optimised flavours",
+ "C07-g": "missed at first (no floating family had gaps beyond 1e26) -> wide_gaps family for double keys (gaps 1e20..1e37: subnormal upper-level slopes)",
+ "C11-g": "missed at first (mapped containers had <= 16384 keys in the quick tier) -> chunk-built mapped cases with an off-trend tail and a per-case thread count",
+ "C12-g": "missed at first (the OpenMP thread count never changed inside a process) -> per-case omp_set_num_threads and cases that build through one path only; the fault depends on the history of the worker process, so its witness does not replay in isolation",
+ "C13-g": "missed at first (cubic universes: top bit index never a multiple of 16) -> big_lopsided_grid (independent bit width per axis)",
+ "C14-g": "missed at first (points were always tuples) -> a fifth of the 2-dimensional cases are built from std::pair ranges",
+ "C20-g": "missed at first (unsorted ranges had <= 40 pairs) -> long ranges with one descent around every power of two, every 4096th and 65536th position and both ends",
+ "C04-g": "reported massively: the segmentation engine sweeps the run-time epsilon through one call site",
+ "C16-g": "ThreadSanitizer reports the race and the digests differ; the worker then stalls in the runtime (stall watchdog)",
+ "C18-g": "same idea as C11-f / C05-g",
+ "C06-g": "same idea as C05-f",
  "C01-c": "the agent measured ~1 failing key in 10^8 random keys; the band-tight families (staircase, nested_staircase) produce hundreds of failing cases",
 }
 N = json.load(open('/verif/seeded/needs.json'))
